@@ -883,7 +883,10 @@ impl TransactionBuilder {
     }
 
     pub fn add_reference_input(&mut self, reference_input: &TransactionInput) {
-        self.reference_inputs.insert(reference_input.clone(), 0);
+        // keeps the script size if the input was already registered with one
+        self.reference_inputs
+            .entry(reference_input.clone())
+            .or_insert(0);
     }
 
     pub fn add_script_reference_input(
